@@ -59,7 +59,7 @@ pub fn gen_state(rng: &mut Rng, m128: bool) -> SnapState {
     s
 }
 
-fn dirty(e: &mut Emu, kind: usize, rng: &mut Rng, m128: bool) {
+pub fn dirty_receiver(e: &mut Emu, kind: usize, rng: &mut Rng, m128: bool) {
     // every dirty receiver has foreign RAM contents
     if kind != 0 {
         for p in 0..ram_pages(m128) {
@@ -127,7 +127,7 @@ fn mk(m128: bool, dirt: usize, rng: &mut Rng, mouse: bool, kempston: bool) -> Em
 fn mk_rate(m128: bool, dirt: usize, rng: &mut Rng, mouse: bool, kempston: bool, rate: usize) -> Emu {
     let cfg = MCfg { m128, ay: true, ay_mode: 1, kempston, mouse, rate, ..Default::default() };
     let mut e = new_emu(&cfg);
-    dirty(&mut e, dirt, rng, m128);
+    dirty_receiver(&mut e, dirt, rng, m128);
     e
 }
 
